@@ -1404,8 +1404,71 @@ def zone_case(ctx):
             shutil.rmtree(d, ignore_errors=True)
 
 
+def symlinked_level_case(ctx):
+    """A level directory of a file cache that is a symbolic link (the level lives on another volume): a clean-up of that
+    level by directory walk - remove_all and remove_before - removes its tiles as those of any other level, leaves the other
+    levels alone and ends without an error."""
+    import io
+    import contextlib
+    import shutil
+    import tempfile
+    from mapproxy.config.loader import ProxyConfiguration
+    from mapproxy.seed.config import SeedingConfiguration
+    from mapproxy.seed.cleanup import cleanup
+    from mapproxy.cache.tile import Tile
+    for mode in ('remove_all', 'remove_before'):
+        d = tempfile.mkdtemp(prefix='verif-c12-symlvl-')
+        try:
+            conf = {'services': {'tms': {}},
+                    'grids': {'u': {'srs': 'EPSG:3857', 'bbox': [0, 0, 1024, 1024], 'res': [4, 2, 1], 'tile_size': [16, 16], 'origin': 'll'}},
+                    'sources': {'s': {'type': 'wms', 'req': {'url': 'http://up.invalid/s', 'layers': 'x'}}},
+                    'caches': {'c': {'grids': ['u'], 'sources': ['s'], 'cache': {'type': 'file', 'directory': os.path.join(d, 'cache')}}},
+                    'layers': [{'name': 'l', 'title': 'l', 'sources': ['c']}],
+                    'globals': {'cache': {'base_dir': os.path.join(d, 'cd'), 'lock_dir': os.path.join(d, 'l'), 'tile_lock_dir': os.path.join(d, 'tl')}}}
+            k = {'caches': ['c'], 'grids': ['u'], 'levels': [1]}
+            if mode == 'remove_all':
+                k['remove_all'] = True
+            else:
+                k['remove_before'] = {'time': '2020-01-01T00:00:00'}
+            pc = ProxyConfiguration(conf, conf_base_dir=d, seed=True, renderd=False)
+            tasks = SeedingConfiguration({'cleanups': {'k': k}}, mapproxy_conf=pc).cleanups(['k'])
+            tm = tasks[0].tile_manager
+            os.makedirs(os.path.join(d, 'volume2', '01'))
+            os.makedirs(os.path.join(d, 'cache'))
+            os.symlink(os.path.join(d, 'volume2', '01'), os.path.join(d, 'cache', '01'))
+            old = _time.mktime(_time.strptime('2019-06-01T00:00:00', '%Y-%m-%dT%H:%M:%S'))
+            coords = [(0, 0, 1), (3, 2, 1), (0, 0, 2), (0, 0, 0)]
+            for c in coords:
+                p = tm.cache.tile_location(Tile(c), create_dir=True)
+                with open(p, 'wb') as f:
+                    f.write(b'tile')
+                os.utime(p, (old, old))
+            err = None
+            try:
+                with contextlib.redirect_stdout(io.StringIO()):
+                    cleanup(tasks, concurrency=1, dry_run=False, skip_geoms_for_last_levels=0, progress_logger=None)
+            except Exception as ex:
+                err = '%s: %s' % (type(ex).__name__, ex)
+            left = [c for c in coords if os.path.exists(tm.cache.tile_location(Tile(c)))]
+            ctx.count(('symlinked-level', mode))
+            bad = []
+            if err:
+                bad.append('the clean-up ended with %s' % err[:160])
+            if [c for c in left if c[2] == 1]:
+                bad.append('tiles of level 1 are still there: %s' % [list(c) for c in left if c[2] == 1])
+            if [c for c in coords if c[2] != 1 and c not in left]:
+                bad.append('tiles of other levels are gone: %s' % [list(c) for c in coords if c[2] != 1 and c not in left])
+            if bad:
+                ctx.violation({'kind': 'symlinked-level', 'mode': mode},
+                              'file cache whose directory of level 1 is a symbolic link to another volume, clean-up of level 1 with %s: %s' % (
+                                  mode, '; '.join(bad)), {'mode': mode})
+        finally:
+            shutil.rmtree(d, ignore_errors=True)
+
+
 def _finish(ctx):
     rotated_coverage_case(ctx)
+    symlinked_level_case(ctx)
     concurrent_writer_case(ctx)
     zone_case(ctx)
     ctx.assumptions += [
